@@ -299,9 +299,15 @@ class Shadow:
             self._knobs_update()
         elif k == "knob":
             name, source, weights, targets = op[1:5]
+            prev = self.expected_path(source)
+            if not isinstance(prev, float) or not math.isfinite(prev):
+                # a spurious re-run (sibling / owner trigger) computes inf - inf or changes int -> float
+                raise Discard("knob source not a finite float")
+            if any(not isinstance(self._nav(self.ckey(t)), float) for t in targets):
+                raise Discard("knob target not a float")
             self.knobs[name] = {"source": source, "weights": [dec(w) for w in weights],
                                 "targets": [self.ckey(t) for t in targets],
-                                "prev": self.expected_path(source)}
+                                "prev": prev}
             self.order.append(name)
         elif k == "unreg_task":
             name = op[1]
